@@ -2,6 +2,7 @@ import Driver.Util
 import Driver.Vec
 import Driver.Queue
 import Driver.PubSub
+import Driver.EventPorts
 import Driver.Blackboard
 import Driver.EventSeq
 import Driver.ResizeMem
@@ -51,6 +52,7 @@ def components : List (String × Comp) := [
   ("vec", VecD.comp),
   ("queue", QueueD.comp),
   ("pubsub", PubSubD.comp),
+  ("eventports", EventPortsD.comp),
   ("blackboard", BlackboardD.comp),
   ("eventseq", EventSeqD.comp),
   ("resize", ResizeMemD.comp),
